@@ -428,6 +428,11 @@ func c16Heal(c *Ctx, idx int, hosts, conns int, fault string) {
 		bed.Cluster.KillPooled(idx%2 == 0, target)
 	case "kill-host":
 		bed.Cluster.KillHosts(false, target)
+	case "kill-host-slow-start":
+		// the node is back at once, but while it starts up it answers the first STARTUPs with IS_BOOTSTRAPPING: the proxy must
+		// keep trying until the node takes connections
+		atomic.StoreInt32(&bed.Cluster.Hosts[target-1].StartupFailures, int32(2+idx%3))
+		bed.Cluster.KillHosts(false, target)
 	case "kill-control":
 		for _, x := range bed.Cluster.ControlConns() {
 			x.Kill(false)
@@ -613,6 +618,11 @@ func c16Heal(c *Ctx, idx int, hosts, conns int, fault string) {
 	if !healed {
 		if worst > 2*(hosts+2) {
 			r.Violate(mon.Violation{Signature: "C16/not-healed/" + fault, Detail: fmt.Sprintf("after %s the proxy did not restore all connections within %d reconnect attempts (NextDelay calls per policy clone: %v) although every host accepts connections", fault, hosts+2, perClone), Scenario: scenario})
+		} else if pcl, perr := bed.ReadyClient(primitive.ProtocolVersion4, ""); perr == nil && ProgressSteps(pcl, 100, 1) && !allHealed() {
+			// the proxy is running (it has just answered 100 round trips), every host accepts connections, and 15 s - several
+			// hundred times the maximum reconnect delay of this scenario - have passed: a slot that is still empty was given up
+			pcl.Close()
+			r.Violate(mon.Violation{Signature: "C16/not-healed/" + fault, Detail: fmt.Sprintf("after %s the proxy did not restore all connections although every host accepts connections again; it made only %d reconnect attempts (NextDelay calls per policy clone: %v) and then stopped trying, while it kept answering clients", fault, worst, perClone), Scenario: scenario})
 		} else {
 			r.Inconc("c16 heal: not healed when the watchdog fired after " + fault)
 		}
@@ -948,10 +958,10 @@ func runC16(c *Ctx) {
 			}
 		}
 	}
-	faults := []string{"kill-pooled", "kill-host", "kill-control", "kill-all", "mute-pooled", "mute-control", "stop-all-restart-one", "mute-pooled-busy"}
+	faults := []string{"kill-pooled", "kill-host", "kill-control", "kill-all", "mute-pooled", "mute-control", "stop-all-restart-one", "mute-pooled-busy", "kill-host-slow-start"}
 	for i := 0; i < c.Pick(28, 1400); i++ {
 		if j := next(); c.Mine(j) {
-			c16Heal(c, i, 1+i%4, 1+(i/4)%2, faults[(i+i/8)%len(faults)])
+			c16Heal(c, i, 1+i%4, 1+(i/4)%2, faults[(i*7+i/9)%len(faults)])
 		}
 	}
 	for i := 0; i < c.Pick(3, 150); i++ {
